@@ -198,6 +198,12 @@ func genGB(rt *rapid.T, sticky bool) gbSpec {
 		Sticky:     sticky,
 		Mode:       rapid.SampledFrom([]string{"WRR", "WRR", "WLC", "wlc"}).Draw(rt, "mode"),
 	}
+	if sticky {
+		// slow start is documented as not supported with session sticky: enabling it
+		// must not change the sticky mapping (with non-sticky balancing the members a
+		// reload adds ramp up from weight 0 with the wall clock, which is C03/C04 ground)
+		gb.SlowStart = rapid.SampledFrom([]int{0, 0, 1, 30}).Draw(rt, "slowStart")
+	}
 	if gb.Strategy == stratIDOnly || gb.Strategy == stratIDPreferred || rapid.Bool().Draw(rt, "hdrAnyway") {
 		gb.Header = rapid.SampledFrom(hashHeaders).Draw(rt, "hashHeader")
 	}
@@ -431,6 +437,9 @@ type c02Variant struct {
 
 func c02Run(tb ev.TB, rec *ev.Rec, p c02Plan) {
 	classes := []string{fmt.Sprintf("strategy=%d", p.GB.Strategy), fmt.Sprintf("sticky=%v", p.GB.Sticky), "exh=" + p.Exh}
+	if p.GB.SlowStart > 0 {
+		classes = append(classes, "slow-start")
+	}
 	if cookieName(p.GB.Header) != "" {
 		classes = append(classes, "hashheader=cookie")
 	} else if p.GB.Header != "" {
